@@ -65,12 +65,14 @@ impl StrSuffix {
     }
 
     fn bytes_prefix(&self) -> &[u8] {
-        for i in 0..(self.len().min(3)) {
+        let max = self.len().min(3);
+        for i in 0..max {
             if Self::is_char_boundary_byte(self.0[i]) {
                 return &self.0[..i];
             }
         }
-        &self.0[..0]
+        // Only continuation bytes follow: a four byte character or a character that ends the input
+        &self.0[..max]
     }
 
     pub fn restore_char(&self, prefix: &[u8]) -> char {
